@@ -28,7 +28,7 @@ const rule = "case = a valid route set (possibly empty; some routes header-const
 
 var assumptions = []string{
 	"requests carry a non-nil URL (net/http guarantees it)",
-	"handlers of the generated applications do not panic themselves: any panic is the framework's",
+	"handlers of the generated applications do not panic themselves, except the ones marked so (they record that they ran and panic with a value of the harness): any other panic is the framework's",
 }
 
 func TestMain(m *testing.M) {
@@ -113,7 +113,7 @@ func checkCase(c Case) (out evid.Outcome) {
 			qr := c.Reqs[i]
 			q := rt.Req{M: unq(qr.M), P: unq(qr.P), H: qr.H, Wire: qr.W}
 			h := serveOn(fresh, q, qr)
-			if _, boom := h.Panic.(rt.Boom); boom {
+			if h.Boomed {
 				h.Panic = nil
 			}
 			if mode == "empty" && h.Handler < 0 && h.Panic == nil {
@@ -157,7 +157,7 @@ func checkCase(c Case) (out evid.Outcome) {
 			out.Classes = append(out.Classes, "long-path")
 		}
 		desc := fmt.Sprintf("%q %s", m, strconv.QuoteToASCII(clip(p)))
-		if _, boom := hit.Panic.(rt.Boom); boom {
+		if hit.Boomed {
 			// the chosen route's own handler panicked and nothing recovers: that
 			// is the application's panic, not the router's. It comes out of
 			// ServeHTTP - or not -, but it is no reason to start another chain
@@ -180,7 +180,7 @@ func checkCase(c Case) (out evid.Outcome) {
 			return fail(out, "unknown-method-dispatched", "%s: unknown method was dispatched to handler #%d", desc, hit.Handler)
 		}
 		again := serve()
-		if _, boom := again.Panic.(rt.Boom); boom {
+		if again.Boomed {
 			again.Panic = nil
 		}
 		if !reflect.DeepEqual(hit, again) {
@@ -399,7 +399,9 @@ func genCase(t *rapid.T) Case {
 			}
 			q.H = append(q.H, [2]string{"X-Api", []string{"v1", "7"}[rapid.IntRange(0, 1).Draw(t, "xv")]})
 		case 7: // the same field several times with the same value, and a huge value
-			v := []string{"v1", "7", ""}[rapid.IntRange(0, 2).Draw(t, "xv")]
+			// ("7" gives the same verdict for each of the three expressions in use
+			// whether the first value, any value or the joined list is looked at)
+			v := "7"
 			q.H = [][2]string{{"X-Api", v}, {"Accept", strings.Repeat("7", 70000)}, {"X-Api", v}, {"X-Api", v}}
 		case 8: // the names in other spellings (the request's map is canonical all the same)
 			q.H = [][2]string{{"x-api", "v1"}, {"ACCEPT", "12"}}
